@@ -47,6 +47,9 @@ def jobs_for(tier):
     # against a bit-string model: alignment and length arithmetic beyond what whole values reach
     for k in ('per-encoder', 'uper-encoder'):
         jobs.append(dict(id='kernel/' + k, kernel=k, tier=tier, codec=k.split('-')[0], numeric_enums=False, W=256))
+    # constrained whole number for SYMBOLIC bounds: every (lo..hi) of the stated interval, any value
+    for k in ('per-int-range', 'uper-int-range'):
+        jobs.append(dict(id='kernel/' + k, kernel=k, tier=tier, codec=k.split('-')[0], numeric_enums=False, W=256))
     return jobs
 
 
@@ -54,7 +57,57 @@ def beq(a, b):
     return to_z3bool(SymBytes(a) == b)
 
 
+def make_int_kernel(job):
+    from lib import kernels_int
+    mod = C.per if job['codec'] == 'per' else C.uper
+
+    def harness(ctx):
+        with shimmed(C.CODEC_MODS):
+            ctx.describe = lambda m: {'state': {n: m.eval(v, model_completion=True).as_signed_long()
+                                                for n, v in ctx.eng.vars.items()}}
+            try:
+                out, ref, dec, v = kernels_int.per_int_range(ctx, mod, job['codec'] == 'per')
+            except Inconclusive:
+                raise
+            except Exception as e:
+                ctx.violation('kernel-raises', '%s: %s' % (type(e).__name__, str(e)[:100]))
+                return
+            if len(out) != len(ref):
+                ctx.violation('kernel-length-differs-from-X.691', 'library %d octets, X.691 11.5 %d' % (len(out), len(ref)))
+                return
+            if not ctx.prove('kernel-constrained-whole-number-equals-X.691', SymBytes(out) == ref):
+                return
+            if ctx.prove('kernel-decode(model-bits)-is-the-value', dec == v):
+                ctx.note('kernel-proved')
+    return harness
+
+
+def replay_int_kernel(v):
+    s = v['witness']['vars']
+    lo, hi, val = s['lo'], s['hi'], s['v']
+    codec = v['job']['codec']
+    text = 'T DEFINITIONS AUTOMATIC TAGS ::= BEGIN A ::= INTEGER (%d..%d) END' % (lo, hi)
+    spec = asn1tools.compile_string(text, codec)
+    want = x691.encode(asn1tools.parse_string(text), 'T', 'A', val, codec == 'per')
+    want = want.concrete() if hasattr(want, 'concrete') else bytes(want)
+    try:
+        got = bytes(spec.encode('A', val))
+    except Exception as e:
+        return True, 'INTEGER (%d..%d) value %d: encode raised %s: %s' % (lo, hi, val, type(e).__name__, str(e)[:80])
+    if got != want:
+        return True, '%s INTEGER (%d..%d) value %d: library %s, X.691 %s' % (codec, lo, hi, val, got.hex(), want.hex())
+    try:
+        back = spec.decode('A', want)
+    except Exception as e:
+        return True, 'INTEGER (%d..%d): decode(%s) raised %s' % (lo, hi, want.hex(), type(e).__name__)
+    if back != val:
+        return True, 'INTEGER (%d..%d): %s decodes to %d, not %d' % (lo, hi, want.hex(), back, val)
+    return False, 'INTEGER (%d..%d) value %d agrees with X.691 (%s)' % (lo, hi, val, got.hex())
+
+
 def make_harness(job):
+    if job.get('kernel', '').endswith('int-range'):
+        return make_int_kernel(job)
     if job.get('kernel'):
         from checks import C01
         return C01.make_kernel_harness(job)
@@ -137,6 +190,8 @@ def make_harness(job):
 
 def replay(v):
     job = v['job']
+    if job.get('kernel', '').endswith('int-range'):
+        return replay_int_kernel(v)
     if job.get('kernel'):
         from checks import C01
         return C01.replay_kernel(v)
